@@ -233,6 +233,12 @@ class Queue:
         current().point("queue.qsize", self.label)
         return len(self._q)
 
+    @property
+    def queue(self):
+        """queue.Queue.queue (the underlying deque), as the library may peek at the head."""
+        current().point("queue.peek", self.label)
+        return self._q
+
     # harness-side access, no scheduling point
     def peek_all(self):
         return list(self._q)
